@@ -45,8 +45,13 @@ def limitEndpoint (d sl sr : α) : α :=
   let d1 := zeroIfWrongSign d sl
   if capNeeded d1 sl sr then 3 * sl else d1
 
-/-- `mask_same_sign = (delta_l * delta_r) > 0`. -/
-def sameSign (dl dr : α) : Bool := decide (0 < dl * dr)
+/-- `mask_same_sign = (torch.sign(delta_l) * torch.sign(delta_r)) > 0`: both secants non-zero with the same
+sign. (Signs, not the product `delta_l * delta_r`, which underflows in binary64 for secants below ≈ 1e-162;
+over an ordered field the two are the same test: `sameSign_iff` in `Proofs/PchipSlopes.lean`.) -/
+def sameSign (dl dr : α) : Bool := decide (0 < sgn dl * sgn dr)
+
+/-- The mask as it was before the fix of PCHIP-U1 (kept only to document the binary64 gap). -/
+def sameSignByProduct (dl dr : α) : Bool := decide (0 < dl * dr)
 
 /-- `torch.where(mask_same_sign, delta, ones)`: the argument actually handed to
 `_weighted_harmonic_mean` (division happens only where the mean is used). -/
